@@ -33,4 +33,7 @@ CoverageExact(e) == DomEq(e.look, e.cov)
 RangesExact(e) == e.hasrr => (Ascending(e.rr) /\ Ascending(e.look) /\ {e.rr[i][1] : i \in Starts(e.rr)} = {e.look[i][1] : i \in Starts(e.look)} /\ {e.rr[i][2] : i \in Ends(e.rr)} = {e.look[i][2] : i \in Ends(e.look)})
 (* the script set is exactly the set of scripts of the covered runes *)
 ScriptsExact(e) == e.scripts = e.lookscripts
+(* the coverage does not depend on what the scan processed before: built with the range buffer  *)
+(* threaded from the previous cmaps, and built afresh, it is the same                            *)
+CoverageHistoryFree(e) == e.cov = e.covf /\ e.scripts = e.scriptsf
 =============================================================================
